@@ -5,6 +5,8 @@
 
     nuc.complement x<seq>            → x<bytes> | PANIC
     nuc.transcribe x<seq>            → x<bytes> | PANIC
+    seq.complement (Q …)             → (Q …) | PANIC              (gts.Complement)
+    seq.revcomp (Q …)                → (Q …) | PANIC              (gts.Reverse ∘ gts.Complement)
     nuc.replace x<p> x<old> x<new>   → x<bytes> | PANIC          (replaceBytes)
     nuc.match x<seq> x<query>        → ((S a b) …) | PANIC        (ASCII only)
     nuc.search x<seq> x<query>       → ((S a b) …)                (ASCII only)
@@ -15,6 +17,7 @@
 -/
 import Gts.Model.Sexp
 import Gts.Model.Nuc
+import Gts.Model.SeqNuc
 import Gts.Spec.Iupac
 namespace Gts
 
@@ -25,6 +28,10 @@ def encOptBytes : Option (List UInt8) → String
 def evalNuc (op : String) (args : List Sexp) : Option String :=
   match op, args with
   | "nuc.complement", [p] => do pure (encOptBytes (Nuc.complementBytes (← decBytes? p)))
+  | "seq.complement", [q] => do
+      pure (match (← decSeq? q).complementRec with | some r => encSeq r | none => "PANIC")
+  | "seq.revcomp", [q] => do
+      pure (match (← decSeq? q).revcompRec with | some r => encSeq r | none => "PANIC")
   | "nuc.transcribe", [p] => do pure (encOptBytes (Nuc.transcribeBytes (← decBytes? p)))
   | "nuc.replace", [p, o, n] => do
       pure (encOptBytes (Nuc.replaceBytes (← decBytes? p) (← decBytes? o) (← decBytes? n)))
